@@ -9,9 +9,9 @@ SPEC = {
     "agrees": "C19.agrees",
     "in_domain": "C19.in_domain",
     "model_prop": "fun k => implb (C19.in_domain k) (C19.model_select k)",
-    "n_quick": 260,
+    "n_quick": 220,
     "n_thorough": 12000,
-    "shard": 70,
+    "shard": 55,
     "rule": "see harness/props/c19.go: a bucket of 1-3 value columns (float32/float64/int32/int64, 10% other integer types) and 1-7 rows "
             "(1-14 thorough) on the grid of 1Sec/1Min/5Min/1H written into a real temporary instance; 0-3 WHERE conjuncts over Epoch "
             "(datetime string / epoch ns / epoch s) and value columns with literals on, between and outside stored values; distinct = "
